@@ -47,7 +47,7 @@ RULE = (
     "130 000 / 230 000 / 262 145 points (never a multiple of 100 000) in thousands of blocks of very different populations for "
     "sum / mean / median, judged like every other call down to the last points of the input; drop_coords=False with 11..16 coordinate arrays (extra k = 1000*k "
     "+ noise; controls with exactly 10, 3 and 4 arrays); np.average / weighted median with weights exactly 0.0 in all components on points ON "
-    "the bounding box of the cloud, region not given (control: given), every block keeping a positive weight; value coincidences for sum / mean / max / min / median with 1..3 components: 0/1 "
+    "the bounding box of the cloud, region not given (control: given), every block keeping a positive weight, and weights exactly 0.0 on different points in different components (2-3 components, 10-30 % of the points, positive in the other components); value coincidences for sum / mean / max / min / median with 1..3 components: 0/1 "
     "flags, signed integer residuals that cancel inside a block, a field that is zero over part of the survey, all-zero data (occupied blocks "
     "that reduce to exactly 0 in every component) and NaN data incl. blocks without a valid value (entry and coordinates judged, the "
     "value of an entry with a NaN member is not). Non-trivial = at least 2 occupied blocks, a block with >= 2 members whose data differ, and an empty block "
@@ -100,10 +100,10 @@ FLOORS = {
         "class:reduction:callable:user.mean": 30, "single_member_blocks_judged_for_spread_statistics(expected 0, not NaN)": 1100,
         "class:more_than_100000_points": 1, "class:coordinate_arrays:11_or_more(drop_coords=False)": 19,
         "class:coordinate_arrays:exactly_10(drop_coords=False)": 2,
-        "class:weights_exactly_0_in_all_components_on_some_points": 25,
-        "class:zero_weight_point_on_the_bounding_box:region_inferred": 18,
+        "class:weights_exactly_0_in_all_components_on_some_points": 19,
+        "class:zero_weight_point_on_the_bounding_box:region_inferred": 12,
         "class:zero_weight_point_on_the_bounding_box:region_given": 4,
-        "zero_weight_border_calls:points_on_the_box_with_weight_0": 100,
+        "zero_weight_border_calls:points_on_the_box_with_weight_0": 76,
         "class:call_with_an_occupied_block_reducing_to_0_in_every_component:sum": 12,
         "class:call_with_an_occupied_block_reducing_to_0_in_every_component:mean": 3,
         "class:call_with_an_occupied_block_reducing_to_0_in_every_component:max": 2,
@@ -115,6 +115,9 @@ FLOORS = {
         "defaulted_argument:BlockReduce.filter.weights": 54, "defaulted_argument:BlockReduce.__init__.adjust": 770,
         "defaulted_argument:BlockReduce.__init__.center_coordinates": 410,
         "defaulted_argument:BlockReduce.__init__.drop_coords": 540, "defaulted_argument:BlockReduce.__init__.region": 400,
+        "class:weight_exactly_0_in_some_but_not_all_components": 18,
+        "class:weight_exactly_0_in_some_but_not_all_components:2_components": 8,
+        "class:weight_exactly_0_in_some_but_not_all_components:3_components": 6,
     },
     "thorough": {
         "eval:filter_layout": 16800, "eval:labels_vs_reference_geometry": 16800, "eval:params_unchanged_by_filter": 16900,
@@ -153,10 +156,10 @@ FLOORS = {
         "single_member_blocks_judged_for_spread_statistics(expected 0, not NaN)": 19500, "class:more_than_100000_points": 7,
         "class:coordinate_arrays:11_or_more(drop_coords=False)": 310,
         "class:coordinate_arrays:exactly_10(drop_coords=False)": 52,
-        "class:weights_exactly_0_in_all_components_on_some_points": 380,
-        "class:zero_weight_point_on_the_bounding_box:region_inferred": 290,
-        "class:zero_weight_point_on_the_bounding_box:region_given": 94,
-        "zero_weight_border_calls:points_on_the_box_with_weight_0": 1500,
+        "class:weights_exactly_0_in_all_components_on_some_points": 280,
+        "class:zero_weight_point_on_the_bounding_box:region_inferred": 210,
+        "class:zero_weight_point_on_the_bounding_box:region_given": 74,
+        "zero_weight_border_calls:points_on_the_box_with_weight_0": 1100,
         "class:call_with_an_occupied_block_reducing_to_0_in_every_component:sum": 220,
         "class:call_with_an_occupied_block_reducing_to_0_in_every_component:mean": 61,
         "class:call_with_an_occupied_block_reducing_to_0_in_every_component:max": 49,
@@ -168,6 +171,9 @@ FLOORS = {
         "defaulted_argument:BlockReduce.filter.weights": 760, "defaulted_argument:BlockReduce.__init__.adjust": 11300,
         "defaulted_argument:BlockReduce.__init__.center_coordinates": 6100,
         "defaulted_argument:BlockReduce.__init__.drop_coords": 7900, "defaulted_argument:BlockReduce.__init__.region": 5900,
+        "class:weight_exactly_0_in_some_but_not_all_components": 280,
+        "class:weight_exactly_0_in_some_but_not_all_components:2_components": 150,
+        "class:weight_exactly_0_in_some_but_not_all_components:3_components": 130,
     },
 }
 JOBS = {"quick": 1, "thorough": 16}
@@ -177,8 +183,8 @@ CALLS_PER_CASE = 8
 
 def plan(tier):
     if tier == "quick":
-        return collections.OrderedDict(random=140, edges=32, series=42, tiny=10, refused=3, nested=8, reuse=24, inplace=14, reconfigure=30, spellings=40, many_coordinates=10, zero_weights=8, value_coincidences=12, defaults=5, large=2)
-    return collections.OrderedDict(random=2100, edges=480, series=640, tiny=120, refused=14, nested=100, reuse=360, inplace=210, reconfigure=450, spellings=600, many_coordinates=150, zero_weights=120, value_coincidences=180, defaults=60, large=18)
+        return collections.OrderedDict(random=140, edges=32, series=42, tiny=10, refused=3, nested=8, reuse=24, inplace=14, reconfigure=30, spellings=40, many_coordinates=10, zero_weights=12, value_coincidences=12, defaults=5, large=2)
+    return collections.OrderedDict(random=2100, edges=480, series=640, tiny=120, refused=14, nested=100, reuse=360, inplace=210, reconfigure=450, spellings=600, many_coordinates=150, zero_weights=180, value_coincidences=180, defaults=60, large=18)
 
 
 def value_range(values):
@@ -557,6 +563,23 @@ def _value_coincidences(run, rng, verde):
             "reference_labels": label, "result_coordinates": out_coords, "result_data": out}
 
 
+def _zero_weight_per_component(run, rng, verde):
+    """
+    2-3 non-constant components under np.average (now and then the weighted median) with a weights tuple in which a point has weight
+    exactly 0.0 in component j and a positive weight in component k: every component is reduced with ITS OWN weights.
+    """
+    ncomp = int(rng.choice([2, 3]))
+    east, north = blk.make_points(rng, n=int(rng.integers(12, 70)))
+    kwargs = blk.make_blocks(rng, east, north)
+    weights = blk.per_component_zero_weights(rng, east, north, kwargs, ncomp)
+    data = _fields(rng, east, north, ncomp)
+    reduction = np.average if rng.random() < 0.8 else blk.weighted_median
+    run.count("zero_weight_per_component_calls")
+    with warnings.catch_warnings():
+        warnings.simplefilter("ignore")
+        verde.BlockReduce(reduction, **kwargs).filter((east, north), tuple(data), tuple(weights))
+
+
 def _large_call(run, rng, verde, index):
     """
     More than 100 000 points in one call (130 000 / 230 000 / 262 145: never a multiple of 100 000), non-constant data, for
@@ -722,8 +745,11 @@ def run_case(run, tap, stream, index, rng):
         run.sample("eleven_or_more_coordinate_arrays", info)
         return
     if stream == "zero_weights":
-        for _ in range(CALLS_PER_CASE):
-            _zero_weight_border(run, rng, verde)
+        for k in range(CALLS_PER_CASE):
+            if k % 2:
+                _zero_weight_border(run, rng, verde)
+            else:
+                _zero_weight_per_component(run, rng, verde)
         return
     if stream == "spellings":
         for _ in range(CALLS_PER_CASE):
